@@ -536,7 +536,9 @@ func evalWhileLoopStmt(vm *r.VM, node *syntax.WhileLoopStmt) error {
 	// set context's current scope with new one
 
 	for {
-		// #1. first execute expr
+		// #1. first execute expr (the statements of the last pass have moved the current line:
+		// a fault in the condition belongs to the line of the loop statement)
+		vm.SetCurrentLine(node.GetCurrentLine())
 		trueExpr, err := evalExpression(vm, node.TrueExpr)
 		if err != nil {
 			return err
